@@ -43,16 +43,32 @@ def is_index(t: str) -> bool:
     return t.isascii() and t.isdigit() and (t == "0" or not t.startswith("0"))
 
 
-def step(value: Any, t: str) -> Any:
+def as_index(t: Any) -> Any:
+    """The array index a token denotes, or None. Tokens may be given as str (text) or as int (already an index)."""
+    if isinstance(t, bool):
+        return None
+    if isinstance(t, int):
+        return t if t >= 0 else None
+    if is_index(t):
+        return int(t)
+    return None
+
+
+def as_key(t: Any) -> str:
+    return t if isinstance(t, str) else str(t)
+
+
+def step(value: Any, t: Any) -> Any:
     """RFC 6901 section 4: one reference token applied to a value."""
     if isinstance(value, dict):
-        if t in value:
-            return value[t]
+        k = as_key(t)
+        if k in value:
+            return value[k]
         raise PtrError("no such member")
     if isinstance(value, list):
-        if not is_index(t):
+        i = as_index(t)
+        if i is None:
             raise PtrError("not an array index")  # includes "-"
-        i = int(t)
         if i >= len(value):
             raise PtrError("index out of range")
         return value[i]
@@ -79,15 +95,16 @@ def op_add(doc: Any, tokens: List[str], value: Any) -> Any:
         return value
     parent, t = _parent(doc, tokens)
     if isinstance(parent, dict):
-        parent[t] = value
+        parent[as_key(t)] = value
         return doc
     if isinstance(parent, list):
-        if t == "-":
+        if isinstance(t, str) and t == "-":
             parent.append(value)
             return doc
-        if not is_index(t) or int(t) > len(parent):
+        i = as_index(t)
+        if i is None or i > len(parent):
             raise PatchError("bad index")
-        parent.insert(int(t), value)
+        parent.insert(i, value)
         return doc
     raise PatchError("parent is a primitive")
 
@@ -97,14 +114,15 @@ def op_remove(doc: Any, tokens: List[str]) -> Any:
         raise PatchError("cannot remove the root")  # the library's documented behaviour
     parent, t = _parent(doc, tokens)
     if isinstance(parent, dict):
-        if t not in parent:
+        if as_key(t) not in parent:
             raise PatchError("no such member")
-        del parent[t]
+        del parent[as_key(t)]
         return doc
     if isinstance(parent, list):
-        if not is_index(t) or int(t) >= len(parent):
+        i = as_index(t)
+        if i is None or i >= len(parent):
             raise PatchError("bad index")
-        del parent[int(t)]
+        del parent[i]
         return doc
     raise PatchError("parent is a primitive")
 
@@ -114,14 +132,15 @@ def op_replace(doc: Any, tokens: List[str], value: Any) -> Any:
         return value
     parent, t = _parent(doc, tokens)
     if isinstance(parent, dict):
-        if t not in parent:
+        if as_key(t) not in parent:
             raise PatchError("no such member")
-        parent[t] = value
+        parent[as_key(t)] = value
         return doc
     if isinstance(parent, list):
-        if not is_index(t) or int(t) >= len(parent):
+        i = as_index(t)
+        if i is None or i >= len(parent):
             raise PatchError("bad index")
-        parent[int(t)] = value
+        parent[i] = value
         return doc
     raise PatchError("parent is a primitive")
 
@@ -134,7 +153,7 @@ def _get(doc: Any, tokens: List[str]) -> Any:
 
 
 def op_move(doc: Any, frm: List[str], to: List[str]) -> Any:
-    if len(to) > len(frm) and to[: len(frm)] == frm:
+    if len(to) > len(frm) and [as_key(x) for x in to[: len(frm)]] == [as_key(x) for x in frm]:
         raise PatchError("cannot move into own child")
     v = _get(doc, frm)
     if not frm:
